@@ -60,7 +60,7 @@ def opt(x: Any) -> Any:
 
 
 def canon_model(out: Any) -> Dict[str, Any]:
-    failed, allobj, objects, roots, pages, inv, guarded = out
+    failed, allobj, objects, roots, pages, inv, guarded, unproc = out
     return {
         'failed': opt(failed),
         'allobjects': [[rpath(p), i] for p, i in allobj],
@@ -69,7 +69,7 @@ def canon_model(out: Any) -> Dict[str, Any]:
                     for n, par, cl, kind, cont, al, bases, subs, sup in objects],
         'roots': list(roots),
         'pages': [[i, None if not f else quote(rpath(f[0])) + '.html'] for i, f in pages],
-        'inv': bool(inv), 'guarded': bool(guarded),
+        'unprocessed': list(unproc), 'inv': bool(inv), 'guarded': bool(guarded),
     }
 
 
@@ -85,6 +85,7 @@ def canon_impl(r: Any, ncreated: int) -> Dict[str, Any]:
                      o['bases'] or [], o['subs'] or [], o['sup']] for o in objs[:ncreated]],
         'roots': obs['roots'],
         'pages': [[i, None if objs[i]['url'] is None else objs[i]['url'].split('#')[0]] for _, i in obs['allobjects']],
+        'unprocessed': obs['unprocessed'],
     }
 
 
@@ -625,6 +626,9 @@ CORPUS_OPS: List[List[Any]] = [
     [[0, 0, nm_(1), None], [1, 3, nm_(2), 0, 0], [1, 3, nm_(2), 0, 0], [2, 1, 0, nm_(3)]],
     # module moved into a module
     [[0, 1, nm_(1), None], [0, 0, nm_(2), 0], [0, 0, nm_(3), None], [2, 1, 2, nm_(2)]],
+    # a replaced module is moved back and replaced again: unprocessed_modules.remove raises ValueError
+    [[0, 0, nm_(1), None], [0, 0, nm_(1), 0], [0, 0, nm_(1), 0], [2, 1, 0, nm_(1)], [0, 0, nm_(1), 0]],
+    [[0, 0, nm_(1), None], [0, 0, nm_(1), 0], [0, 0, nm_(1), 0], [2, 1, 0, nm_(2)], [0, 1, nm_(2), 0]],
 ]
 
 
@@ -696,8 +700,8 @@ class Check(PropertyCheck):
     models = {'registry': 'XRegistry.v'}
     rule = ('(i) exhaustive: quick = every sequence of <= 3 operations {AddModule(pkg?, name, parent), AddChild(Class|Function|'
             'Attribute, name, parent), Reparent(o, newparent, newname)} over 3 names with ANY object as parent, and every '
-            'sequence of <= 4 operations with parents ranging over the objects that can hold the child (modules: any module; '
-            'children: module/package/class; move targets: modules); thorough = <= 4 with any parent over 3 names and <= 5 over '
+            'sequence of <= 4 operations with Class/Function children and parents ranging over the objects that can hold the '
+            'child (modules: any module; children: module/package/class; move targets: modules); thorough = <= 4 with any parent over 3 names and <= 5 over '
             '2 names with class children only; one representative per renaming of the names; all applied through the real '
             'API and through Model/Registry.v and diffed state for state; plus random '
             'histories of <= 40 operations (incl. SetBases, PostProcess, unguarded parents, "a 0"-style and summary-page '
@@ -716,14 +720,21 @@ class Check(PropertyCheck):
         '(oracle only)',
     ]
     manifest = {
-        'text': ('Theorems over Model/Registry.v for every history (unbounded): the invariant Inv (registry keys are exactly '
-                 'the current qualified names, the registered set is closed under parent/contents/roots, every object is its '
-                 "parent's entry unless superseded, kinds fit) holds initially, is preserved by AddModule/AddChild incl. the "
-                 'duplicate branches under their guards and by every guarded history; reachability of a root is derived; '
-                 'subclasses is the exact inverse of baseobjects after post-processing; page file names are injective except '
-                 'for the recorded summary-page names. _refuted witnesses (vm_compute) for the five recorded defects.'),
-        'note': ('Trusted: Coq kernel, ExtrOcamlBasic extraction + OCaml driver, the Python harness, injectivity of the '
-                 'name rendering / quote(). Sampled not proved: that the AST builder only issues guarded operations.'),
+        'text': ('Theorems over Model/Registry.v for every history (unbounded): the invariant Inv (I1 registry keys are exactly the '
+                 'current qualified names and fullName terminates; I2 the registered set is closed under parent/contents/'
+                 "rootobjects; I3 every object is its parent's entry unless superseded; I4 the walk up ends in a root; I5 kinds "
+                 'fit) holds initially (C02_inv_init), is preserved by addObject incl. handleDuplicate (C02_inv_add), by '
+                 '_addUnprocessedModule (C02_inv_add_module), by Documentable.reparent (C02_inv_reparent) under their guards and '
+                 'hence after every guarded history (C02_inv_history, executable form C02_inv_history_exec with C02_guard_b_sound); '
+                 'the fuelled walks do not run out of fuel (C02_fuel_*); subclasses is the exact inverse of baseobjects after '
+                 'post-processing (C02_subclasses_inverse); page file names are injective and disjoint from the summary pages '
+                 'except for the recorded names (C02_url_injective_partial). Five _refuted witnesses (vm_compute) for the recorded '
+                 'defects. Tie: exhaustive + random operation histories through the real API vs the extracted model, state for '
+                 'state, with inv_check cross-validated against the Python oracle; generated source projects through the real '
+                 'builder checked by the oracle.'),
+        'note': ('Trusted: Coq kernel, ExtrOcamlBasic extraction + OCaml driver, the Python harness, injectivity of the name '
+                 'rendering / quote(). Not proved, sampled: that the AST builder only issues guarded operations; that guarded '
+                 'operations do not raise; replacement of a module inside a package; MRO shape (C05); zope implementedby.'),
         'technique': 'Coq proof (state-machine invariant) + exhaustive/random model-vs-implementation correspondence + oracle',
     }
     assumptions = ['name bases contain neither blank nor dot', 'modules are added before processing (never re-added after)']
@@ -734,7 +745,7 @@ class Check(PropertyCheck):
         maxlen = 4 if self.tier == 'quick' else 5
         cases = list(CORPUS_OPS)
         if maxlen == 4:
-            ex = enumerate_ops(3, names, wide=True) + enumerate_ops(4, names, wide=False)
+            ex = enumerate_ops(3, names, wide=True) + enumerate_ops(4, names, wide=False, child_classes=(2, 3))
         else:
             ex = enumerate_ops(4, names, wide=True) + enumerate_ops(5, names[:2], wide=False, child_classes=(2,))
         seen = set(json.dumps(c) for c in cases)
